@@ -12,6 +12,7 @@ package dht
 import (
 	"fmt"
 	"math/rand"
+	"runtime"
 	"strings"
 	"sync"
 	"testing"
@@ -197,7 +198,7 @@ func (m *vC12Mon) runConcurrent(t *testing.T) {
 
 func TestVerifRace_C12_concurrent(t *testing.T) {
 	vh.Run(t, vh.Spec{Prop: "C12", Unit: "concurrent", Quick: 80, Thorough: 3000, CostMs: 120,
-		Rule: "same simulated networks as C12/histories, but 3-6 worker goroutines run 6-17 PRNG operations each (identify with/without the protocol, protocol removed/added, health flips, disconnects, plain/cancelled/pre-cancelled GetClosestPeers, RefreshRoutingTable/ForceRefresh, identify event for the local node, idle beyond the ping grace) with overlapping virtual-time sleeps; Close (three refresh requests issued just before it, two after it; the calls themselves are ordered against Close, see C12/closerace) runs after the workers or, in a third of the cases, in the middle of them; -race build; only order-free admission invariants, callback/table agreement at the final rest point and refresh answers are judged; non-trivial = at least one admission and >= 2 ops per worker; distinct by (shape, #callbacks)",
+		Rule:    "same simulated networks as C12/histories, but 3-6 worker goroutines run 6-17 PRNG operations each (identify with/without the protocol, protocol removed/added, health flips, disconnects, plain/cancelled/pre-cancelled GetClosestPeers, RefreshRoutingTable/ForceRefresh, identify event for the local node, idle beyond the ping grace) with overlapping virtual-time sleeps; Close (three refresh requests issued just before it, two after it; the calls themselves are ordered against Close, see C12/closerace) runs after the workers or, in a third of the cases, in the middle of them; -race build; only order-free admission invariants, callback/table agreement at the final rest point and refresh answers are judged; non-trivial = at least one admission and >= 2 ops per worker; distinct by (shape, #callbacks)",
 		Clauses: []string{"never-self", "admit-after-reply", "probe-admission-valid", "callbacks-match-table", "refresh-answered", "refresh-one-value"}},
 		func(c *vh.Case) {
 			cfg := vC12Gen(c)
@@ -206,4 +207,127 @@ func TestVerifRace_C12_concurrent(t *testing.T) {
 				m.runConcurrent(t)
 			})
 		})
+}
+
+// C12/closerace — RefreshRoutingTable / ForceRefresh called truly concurrently with Close (real
+// time, -race build). "Every refresh request receives an answer, also during shutdown" presupposes
+// that issuing the request while the node shuts down is safe: no panic (sync.WaitGroup misuse) and
+// no data race. Answers are awaited without a deadline (a missing answer would end as the
+// wall-clock watchdog's "inconclusive"; the virtual-time units judge that clause).
+func TestVerifRace_C12_closerace(t *testing.T) {
+	vh.Run(t, vh.Spec{Prop: "C12", Unit: "closerace", Quick: 40, Thorough: 1500, CostMs: 60, WallS: 120,
+		Rule:    "real-time: per case 12 fresh DHTs over the simulated host (0-6 identified honest peers, no latency); 2-5 goroutines call RefreshRoutingTable/ForceRefresh 1-4 times each, started together with Close() after a PRNG number of scheduler yields; every channel obtained is read to completion; a panic in a caller is caught (clause), a panic elsewhere crashes the child (driver: crash), the race detector watches; non-trivial = in at least one of the 12 DHTs some requests were issued before Close() began and some after it had begun; distinct by (peers, goroutines, yields)",
+		Clauses: []string{"refresh-call-survives-close", "refresh-answered-shutdown"}},
+		func(c *vh.Case) {
+			r := c.R
+			okAns, errAns, mixed := 0, 0, 0
+			var sigs []string
+			for it := 0; it < 12 && !c.Failed(); it++ {
+				peers := r.Intn(7)
+				gor := 2 + r.Intn(4)
+				yields := r.Intn(40)
+				sigs = append(sigs, fmt.Sprintf("%d.%d.%d", peers, gor, yields))
+				cfg := vC12Cfg{N: 7, K: 24, A: 3, B: 24, Period: time.Minute, QTimeout: 10 * time.Second, ReadTimeout: 10 * time.Second, CheckConc: 256, Scale: 0, Steps: 0, RealTime: true}
+				m := vC12New(t, c, cfg, true)
+				n := m.n
+				for _, id := range n.IDs {
+					m.flip(id, "ok")
+					m.delay[id] = 0
+				}
+				for i := 0; i < peers; i++ {
+					m.identify(n.IDs[i], true)
+				}
+				var mu sync.Mutex
+				var chs []<-chan error
+				var wg sync.WaitGroup
+				start := make(chan struct{})
+				for g := 0; g < gor; g++ {
+					calls, force, y := 1+r.Intn(4), r.Intn(2) == 0, r.Intn(40)
+					wg.Add(1)
+					go func() {
+						defer wg.Done()
+						defer func() {
+							if p := recover(); p != nil {
+								c.FailSig("refresh-call-survives-close", "refresh-call-survives-close/panic", "refresh request issued while Close() was running panicked: %v", p)
+							}
+						}()
+						<-start
+						for i := 0; i < y; i++ {
+							runtime.Gosched()
+						}
+						for i := 0; i < calls; i++ {
+							m.mu.Lock()
+							closing := m.closed
+							m.mu.Unlock()
+							m.noteIssued(closing)
+							var ch <-chan error
+							if force {
+								ch = n.D.ForceRefresh()
+							} else {
+								ch = n.D.RefreshRoutingTable()
+							}
+							mu.Lock()
+							chs = append(chs, ch)
+							mu.Unlock()
+							runtime.Gosched()
+						}
+					}()
+				}
+				// let the admission probes run so that the refresh has members to work on
+				for i := 0; i < 50; i++ {
+					runtime.Gosched()
+				}
+				close(start)
+				for i := 0; i < yields; i++ {
+					runtime.Gosched()
+				}
+				m.startClose()
+				n.D.Close()
+				wg.Wait()
+				c.Clause("refresh-call-survives-close")
+				for _, ch := range chs {
+					v, ok := <-ch // no deadline: see the unit comment
+					c.Check(ok, "refresh-answered-shutdown", "refresh channel closed without a value")
+					if v != nil {
+						errAns++
+					} else {
+						okAns++
+					}
+				}
+				n.H.Close()
+				if before, after := m.issued(); before > 0 && after > 0 {
+					mixed++
+				}
+				c.Obs("dhts", 1)
+				c.Obs("refresh_requests", len(chs))
+			}
+			c.Obs("answered_ok", okAns)
+			c.Obs("answered_error", errAns)
+			c.Set("iterations", sigs)
+			c.Obs("dhts_with_requests_on_both_sides_of_close_start", mixed)
+			if mixed > 0 {
+				c.Nontrivial(strings.Join(sigs, ","))
+			}
+		})
+}
+
+func (m *vC12Mon) noteIssued(closing bool) {
+	m.mu.Lock()
+	if closing {
+		m.issuedAfter++
+	} else {
+		m.issuedBefore++
+	}
+	m.mu.Unlock()
+	if closing {
+		m.c.Obs("issued_after_close_began", 1)
+	} else {
+		m.c.Obs("issued_before_close_began", 1)
+	}
+}
+
+func (m *vC12Mon) issued() (before, after int) {
+	m.mu.Lock()
+	defer m.mu.Unlock()
+	return m.issuedBefore, m.issuedAfter
 }
